@@ -264,6 +264,25 @@ def fam_debug(rng):
     return lines
 
 
+def fam_debug_cond(rng):
+    """C16: the debug call comes from INSIDE a waiter's condition (a condition instrumented with a debug trace: legal,
+    it neither changes nor depends on anything but the protected state), so it runs wherever the library evaluates
+    conditions: in nsync_mu_wait itself and inside the unlock slow path of whoever releases the mutex.  Must not
+    deadlock: the library may not hold its queue spinlock across the callback."""
+    lines = ["sem %s" % rng.choice(["counting", "binary"]), "objs mu=1 cv=0 var=2", "var x0 0 mu0", "var x1 0 mu0",
+             "cond c0 eq x0 1 %s" % rng.choice(["dbg", "eqdbg"]), "cond c1 ge x0 1 dbg", "cond c2 eq x0 2"]
+    for _ in range(rng.choice([1, 2, 2, 3])):
+        rd = rng.random() < 0.3
+        lines.append("fiber " + " ; ".join(["yield"] * rng.randrange(0, 3) + ["rlock mu0" if rd else "lock mu0",
+                     "muwait mu0 %s %s" % (rng.choice(["c0", "c0", "c1"]), rng.choice(["inf", "inf", "p200000"])), "runlock mu0" if rd else "unlock mu0"]))
+    for _ in range(rng.choice([0, 1, 2])):
+        lines.append("fiber " + " ; ".join(["yield"] * rng.randrange(0, 3) + ["lock mu0", "inc x1", "unlock mu0"]))
+    lines.append("fiber " + " ; ".join(["yield"] * rng.randrange(0, 4) + ["lock mu0", "wr x0 1", "unlock mu0"]))
+    if rng.random() < 0.5:
+        lines.append("fiber " + " ; ".join(["yield"] * rng.randrange(0, 3) + ["dbg_muw mu0 %d" % rng.choice([4, 40, 80]), "yield", "dbg_mu mu0 40"]))
+    return lines   # x0 goes to 1 and stays: every waiter's condition becomes and remains true, so nothing may block
+
+
 def fam_waitn_cv(rng):
     """nsync_wait_n over cv objects with a mutex (reader or writer), racing signallers and deadlines."""
     lines = ["sem %s" % rng.choice(["counting", "binary"]), "objs mu=1 cv=2 var=1", "var x0 0 mu0"]
@@ -275,6 +294,26 @@ def fam_waitn_cv(rng):
         lines.append("fiber " + " ; ".join(["yield"] * rng.randrange(0, 3) + [rng.choice(["broadcast cv0", "signal cv0", "broadcast cv1"])] ))
     lines.append("fiber yield ; yield ; broadcast cv0 ; broadcast cv1")
     lines.append("expect stuck-ok")
+    return lines
+
+
+def fam_waitn_atomic(rng):
+    """C04 through nsync_wait_n: 'releasing the mutex and starting to wait is atomic with respect to wakers that hold
+    the mutex'.  Waiters run the Mesa loop `while (x != 1) nsync_wait_n (mu, …, cv…)` WITHOUT deadline, the waker sets
+    x and broadcasts while holding the mutex: a waiter that released the mutex before being queued on the cv misses
+    the only wake-up and sleeps for ever (outcome stuck; termination is certain otherwise).  Other objects in the
+    call (notes nobody notifies, counters that stay non-zero) only vary the enqueue order."""
+    ncv = rng.choice([1, 2])
+    lines = ["sem %s" % rng.choice(["counting", "binary"]), "objs mu=1 cv=%d var=1" % ncv, "var x0 0 mu0",
+             "pre note_new n0 - inf ; ctr_new k0 2"]
+    for _ in range(rng.choice([1, 2, 2, 3])):
+        rd = rng.random() < 0.3
+        objs = ["cv0"] + rng.sample(["n0", "k0"] + (["cv1"] if ncv == 2 else []), rng.choice([0, 0, 1, 2]))
+        rng.shuffle(objs)
+        lines.append("fiber " + " ; ".join(["yield"] * rng.randrange(0, 3) + ["rlock mu0" if rd else "lock mu0", "awaitn mu0 inf x0 1 " + " ".join(objs), "rd x0", "runlock mu0" if rd else "unlock mu0"]))
+    lines.append("fiber " + " ; ".join(["yield"] * rng.randrange(0, 5) + ["lock mu0", "wr x0 1", "broadcast cv0", "unlock mu0"]))
+    if rng.random() < 0.4:   # harmless extra wake-ups before the state changes (Mesa: the loop goes round again)
+        lines.append("fiber " + " ; ".join(["yield"] * rng.randrange(0, 3) + [rng.choice(["signal cv0", "broadcast cv0", "lock mu0 ; signal cv0 ; unlock mu0"])]))
     return lines
 
 
@@ -389,6 +428,55 @@ def fam_longwait_timeout(rng):
         lines.append("fiber after_blocked 2 ; yield ; yield ; rlock mu0 ; runlock mu0")
     lines.append("#strategy4all")
     lines.append("#tick0")
+    return lines
+
+
+def fam_nw_release(rng):
+    """C01 / C02 / C06: nsync_mu_unlock_without_wakeup (used by no test of the suite) with waiters of BOTH kinds
+    queued: nsync_mu_wait callers whose condition stays false across the release (the API's precondition) and plain
+    nsync_mu_lock / nsync_mu_rlock callers, who must be woken all the same.  Some scenarios never make the
+    condition true (the waiters stay: `expect stuck-ok`; a plain locker left asleep on a free mutex is flagged by
+    the quiescence oracle `lock-missed`), others do so at the end with an ordinary unlock."""
+    nw = rng.choice([1, 1, 2])
+    nl = rng.choice([1, 1, 2])
+    lines = ["sem %s" % rng.choice(["counting", "binary"]), "objs mu=1 cv=0 var=2", "var x0 0 mu0", "var x1 0 mu0", "cond c0 eq x0 1", "cond c1 eq x0 1 eq"]
+    finish = rng.random() < 0.5
+    for _ in range(nw):
+        rd = rng.random() < 0.3
+        dl = "inf" if (finish or rng.random() < 0.6) else rng.choice(["p200000", "p5000"])
+        lines.append("fiber " + " ; ".join(["yield"] * rng.randrange(0, 3) + ["rlock mu0" if rd else "lock mu0", "muwait mu0 %s %s" % (rng.choice(["c0", "c1"]), dl), "runlock mu0" if rd else "unlock mu0"]))
+    for _ in range(nl):
+        rd = rng.random() < 0.4
+        lines.append("fiber " + " ; ".join(["yield"] * rng.randrange(0, 4) + (["rlock mu0", "rd x1", "runlock mu0"] if rd else ["lock mu0", "inc x1", "unlock mu0"])))
+    blocked = " ; ".join("after_blocked %d" % f for f in range(nw + nl)) if rng.random() < 0.6 else "yield ; yield"
+    rel = ["lock mu0", blocked, "inc x1", "unlock_nw mu0"]
+    for _ in range(rng.choice([0, 0, 1, 2])):
+        rel += ["yield", "lock mu0", "inc x1", "unlock_nw mu0"]
+    if finish:
+        rel += ["yield", "lock mu0", "wr x0 1", "unlock mu0"]
+    lines.append("fiber " + " ; ".join(rel))
+    if not finish:
+        lines.append("expect stuck-ok")
+    return lines
+
+
+def fam_late_looker(rng):
+    """C02 / C14: the designated-waker protocol under MU_LONG_WAIT.  Fiber 0 (victim A) loses every race against a
+    hog until it publishes MU_LONG_WAIT; fiber 1 (B) was woken earlier (in a reader batch, or alone) and looks at the
+    mutex only after the bit is up (scheduler strategy 6 parks it in its semaphore until then), re-queues in front
+    of A and is the thread the next unlock wakes.  'Only the constraints of mutual exclusion should stop a
+    designated waker': B must take the free mutex although MU_LONG_WAIT is set, or nobody is left to wake A."""
+    nr = rng.choice([1, 1, 2])
+    lines = ["sem %s" % rng.choice(["counting", "binary"]), "objs mu=1 cv=0 var=1", "var x0 0 mu0"]
+    wait_q = " ; ".join("after_blocked %d" % f for f in range(1, 2 + nr))
+    # A (writer, victim): arrives once B and the other readers are queued behind the hog
+    lines.append("fiber " + wait_q + " ; " + " ; ".join(["yield"] * rng.randrange(0, 4) + ["lock mu0 ; unlock mu0"]))
+    # B (reader, late looker) and the readers woken in the same batch
+    for _ in range(1 + nr):
+        lines.append("fiber " + " ; ".join(["yield"] * rng.randrange(1, 3) + ["rlock mu0 ; runlock mu0"]))
+    n = rng.choice([36, 45])
+    lines.append("fiber lock mu0 ; " + wait_q + " ; " + " ; ".join(["yield"] * rng.randrange(0, 4) + ["unlock mu0"]) + " ; " + " ; ".join(["lock mu0 ; yield ; unlock mu0"] * n))
+    lines.append("#strategy6")
     return lines
 
 
@@ -555,11 +643,21 @@ def fam_ctr(rng):
     for i in range(nwait):
         # with several waiters the later ones tend to be timed (a deadline expiring while the zeroing add wakes the others)
         dl = rng.choice(["inf", "inf", "p1000", "p90000", "m5", "z"]) if i < 2 else rng.choice(["p1000", "p3000", "p90000", "inf"])
+        if rng.random() < 0.25:
+            dl = far_dl(rng)
         ops = ["yield"] * (i if nwait > 2 else 0) + ["ctr_wait k0 %s" % dl, "ctr_value k0"]
         lines.append("fiber " + " ; ".join(ops))
     if rng.random() < 0.4:
         lines.append("fiber ctr_value k0 ; yield ; ctr_add k0 0 ; ctr_value k0")
     return lines
+
+
+def far_dl(rng):
+    """A deadline far in the future: whole days, and instants around 2^31 / 2^32 milliseconds and 2^31 seconds from now
+    (any future instant is a legal abs_deadline; conversions to narrower units must not wrap)."""
+    ns = rng.choice([86400 * d * 10**9 for d in (1, 20, 30, 45, 60, 365, 20000)] +
+                    [(2**31 + rng.randrange(-5, 5)) * 10**6, (2**32 + rng.randrange(-5, 5)) * 10**6, 3 * 2**31 * 10**6, (2**31 + 7) * 10**9])
+    return "p%d" % ns
 
 
 def fam_ctr_big(rng):
@@ -572,7 +670,7 @@ def fam_ctr_big(rng):
         ops = ["yield"] * rng.randrange(0, 3) + [rng.choice(["ctr_add k0 -1", "ctr_add k0 -1", "ctr_add k0 0"]) for _ in range(rng.choice([1, 2, 3]))]   # never an increment: 2^32-1 + 1 would be a wrap to zero
         lines.append("fiber " + " ; ".join(ops))
     for i in range(rng.choice([1, 2, 3])):
-        dl = rng.choice(["p1000", "p3000", "p90000", "m5", "z"])
+        dl = rng.choice(["p1000", "p3000", "p90000", "m5", "z"]) if rng.random() < 0.8 else far_dl(rng)
         w = "ctr_wait k0 %s" % dl if rng.random() < 0.7 else "waitn - %s n0 k0" % dl
         lines.append("fiber " + " ; ".join(["yield"] * rng.randrange(0, 2) + [w, "ctr_value k0"]))
     return lines
@@ -589,7 +687,7 @@ except Exception:
     _gm = None
 
 FAMILIES = {"alloc_fail": fam_alloc_fail, "note": _gn.fam_note, "note_f4": _gn.fam_note_f4, "note_f4b": _gn.fam_note_f4b, "note_wc": _gn.fam_note_wc, "note_f7": _gn.fam_note_f7, "refcount": fam_refcount, "starve": fam_starve, "cv_rsignal": fam_cv_rsignal, "ctr": fam_ctr, "once": fam_once, "futex": fam_futex,"core": fam_core, "cv": fam_cv, "cv_raw": fam_cv_raw, "muwait": fam_muwait, "debug": fam_debug,
-            "waitn_cv": fam_waitn_cv, "waitn_rep": fam_waitn_rep, "starve_cv": fam_starve_cv, "longwait_timeout": fam_longwait_timeout, "starve_mix": fam_starve_mix, "muc_cv": fam_muc_cv, "once_nested": fam_once_nested, "ctr_big": fam_ctr_big, "cancel_children": fam_cancel_children, "cv_rwr": fam_cv_rwr, "muc_eqmix": fam_muc_eqmix, "timed_contended": fam_timed_contended, "waitn_mon": fam_waitn_mon, "cancel_only": fam_cancel_only, "mixed": fam_mixed}
+            "waitn_cv": fam_waitn_cv, "waitn_rep": fam_waitn_rep, "waitn_atomic": fam_waitn_atomic, "starve_cv": fam_starve_cv, "late_looker": fam_late_looker, "debug_cond": fam_debug_cond, "nw_release": fam_nw_release, "longwait_timeout": fam_longwait_timeout, "starve_mix": fam_starve_mix, "muc_cv": fam_muc_cv, "once_nested": fam_once_nested, "ctr_big": fam_ctr_big, "cancel_children": fam_cancel_children, "cv_rwr": fam_cv_rwr, "muc_eqmix": fam_muc_eqmix, "timed_contended": fam_timed_contended, "waitn_mon": fam_waitn_mon, "cancel_only": fam_cancel_only, "mixed": fam_mixed}
 
 
 if _gw is not None:
@@ -618,6 +716,9 @@ def make_batch(path, seed, plan):
                 if "#strategy4all" in lines:   # every schedule of this scenario is adversarial (the scenario is built for it)
                     lines = [l for l in lines if l != "#strategy4all"]
                     ex = [e.replace("strategy=%s" % e.split("strategy=")[1].split()[0], "strategy=4") for e in ex]
+                if "#strategy6" in lines:      # every schedule adversarial with a late looker (fiber 1)
+                    lines = [l for l in lines if l != "#strategy6"]
+                    ex = [e.replace("strategy=%s" % e.split("strategy=")[1].split()[0], "strategy=6") for e in ex]
                 if "#strategy4" in lines:      # half of the schedules of this scenario are adversarial
                     lines = [l for l in lines if l != "#strategy4"]
                     ex = [e.replace("strategy=%s" % e.split("strategy=")[1].split()[0], "strategy=%d" % (4 if i % 4 == 0 else 5)) if i % 2 == 0 else e for i, e in enumerate(ex)]   # 5 = 4 + early wake-ups
